@@ -3,7 +3,8 @@
 # property with tools/seed.sh, running the checks from a snapshot of /verif on a worktree of its own
 export GOFLAGS=-mod=mod GOPROXY=off GOSUMDB=off GOTOOLCHAIN=local
 TAG=$1; shift
-export SNAP=/tmp/vsnap-$TAG WT=/tmp/wt-seed-$TAG
+export SNAP=/tmp/vsnap-$TAG SEED_WT=/tmp/wt-seed-$TAG
+WT=$SEED_WT
 rm -rf $SNAP; mkdir -p $SNAP; rsync -a --exclude .git --exclude evidence/replays /verif/ $SNAP/
 git -C /repo worktree remove --force $WT 2>/dev/null; git -C /repo worktree add -q --detach $WT HEAD || exit 2
 sed -i "s#=> /repo#=> $WT#" $SNAP/harness/go.mod
